@@ -179,6 +179,23 @@ def run(ctx: Ctx) -> int:
             a[2] = a[1]
         line = "map|" + " ".join(tok(x) for x in a)
         reqs.append((line, (lambda a=a: map_impl(a)), (lambda a=a, line=line: map_oracle(a, line))))
+    # narrow but non-empty source ranges: a width that is tiny RELATIVE to the bounds (timestamps, large counters, floats a few ulps apart)
+    import math
+    for _ in range(ctx.n(150, 800)):
+        base = rng.choice([1700000000000, 10 ** 12, 2 ** 40, 10 ** 9, 123456789, 0.3, 1023.0, 1e6, -5e8, 2.5e11])
+        if isinstance(base, int):
+            fl, fh = base, base + rng.choice([1, 2, 3, -1, 7])
+        else:
+            fh = base
+            for _k in range(rng.choice([1, 2, 3, 8])):
+                fh = math.nextafter(fh, math.inf if rng.random() < 0.5 else -math.inf)
+            fl = base
+            if fh == fl:
+                fh = math.nextafter(fl, math.inf)
+        v = rng.choice([fl, fh, fl, fh, (fl + fh) / 2 if isinstance(fl, float) else fl + 1])
+        a = [v, fl, fh, rng.choice([0, 10.0, -1]), rng.choice([255, 20.0, 1023])]
+        line = "map|" + " ".join(tok(x) for x in a)
+        reqs.append((line, (lambda a=a: map_impl(a)), (lambda a=a, line=line: map_oracle(a, line))))
 
     def sleep_impl(d):
         calls = []
